@@ -58,7 +58,7 @@ func (w *world) urlBases() []urlBase {
 		{ep: "labelmap/listlabels", method: "GET", inst: "lm", segs: []string{"listlabels"}, kinds: []string{"kw"}, query: "start=2&number=3&sizes=true"},
 		{ep: "labelmap/mutations-range", method: "GET", inst: "lm", segs: []string{"mutations-range", r, r}, kinds: []string{"kw", "uuid", "uuid"}},
 		{ep: "labelmap/history", method: "GET", inst: "lm", segs: []string{"history", "3", r, r}, kinds: []string{"kw", "label", "uuid", "uuid"}},
-		{ep: "labelmap/proximity", method: "GET", inst: "lm", segs: []string{"proximity", "1,3"}, kinds: []string{"kw", "label2"}}, // the documented form
+		{ep: "labelmap/proximity", method: "GET", inst: "lm", segs: []string{"proximity", "1,3"}, kinds: []string{"kw", "label2"}},            // the documented form
 		{ep: "labelmap/proximity", method: "GET", inst: "lm", segs: []string{"proximity", "1", "3"}, kinds: []string{"kw", "label", "label"}}, // the served form
 		{ep: "labelmap/maxlabel", method: "POST", inst: "lm", segs: []string{"maxlabel", "100"}, kinds: []string{"kw", "label"}, named: lm},
 		{ep: "labelmap/nextlabel", method: "POST", inst: "lm", segs: []string{"nextlabel", "5"}, kinds: []string{"kw", "int"}, named: lm},
@@ -474,13 +474,14 @@ func checkMutants(c mutCase) ([]outcome, error) {
 	var v verdicts
 	reportsSeen := 0
 	lost := func(b breq, i int, f fate, msg string) error {
+		reports := w.panicReports() // before the child's directory goes away
 		dropChild()
 		what := b.describe(i)
 		if f == fateDied {
 			return stats.Violf(sigFor(b.ep, b.kind, "server-died"), "%s killed the server process: %s", what, msg)
 		}
 		if f == fateNeverIdle {
-			for _, rep := range w.panicReports() {
+			for _, rep := range reports {
 				if !strings.HasPrefix(rep, "Panic detected on request") {
 					return stats.Violf(sigFor(b.ep, b.kind, "background-panic-recovered"), "%s: afterwards the server reports a recovered panic outside any request (the worker that recovered has stopped) and its own idle predicates never report idle again: %s", what, summarizeReport(rep))
 				}
